@@ -1,8 +1,19 @@
 #!/bin/bash
-# benignrun.sh <dir-with-*/patch.diff> [jobs] — runs all 20 quick checks against each
-# behaviour-preserving patch; every check must stay silent. Prints failures.
-D="$1"; J="${2:-6}"
+# benignrun.sh <dir-with-*/patch.diff> [jobs] [outdir] — runs all 20 quick checks against each
+# behaviour-preserving patch; every check must stay silent. One result file per patch in
+# outdir (default /tmp/benign-res); prints a summary of the checks that fired.
+D="$(readlink -f "$1")"; J="${2:-6}"; O="${3:-/tmp/benign-res}"
 cd /verif
-ALL=$(for n in $(seq -w 1 20); do echo -n "C$n "; done)
-find "$D" -name patch.diff | sort | while read f; do echo "$f silent $ALL"; done > /tmp/benign.args
-xargs -a /tmp/benign.args -P "$J" -L 1 sh -c 'out=$(tools/mutant.sh "$@" 2>&1); echo "== $1"; echo "$out" | grep -E "^(BAD|SKIP|NOTE)" -A2 | cut -c1-400' sh
+rm -rf "$O"; mkdir -p "$O"
+ALL=$(for n in $(seq -w 1 20); do echo -n " C$n"; done)
+find "$D" -name patch.diff | sort | while read f; do
+  tag=$(echo "${f#$D/}" | sed 's#/patch.diff##; s#/#_#g')
+  echo "$O/$tag $f silent$ALL"
+done > "$O/args"
+xargs -a "$O/args" -P "$J" -L 1 sh -c 'o="$1"; shift; tools/mutant.sh "$@" > "$o" 2>&1' sh
+for f in "$O"/C*; do
+  fired=$(grep -E "^BAD" -A1 "$f" | grep -oE "^BAD  patch.diff C[0-9]+|(VIOLATED|UNDECIDED) \\[[^]]*\\]" | sed -E "s/^BAD  patch.diff //" | tr "\\n" " ")
+  skip=$(grep -c "^SKIP" "$f")
+  [ -n "$fired$skip" ] && [ "$fired$skip" != "0" ] && echo "$(basename $f): $fired $( [ $skip != 0 ] && echo SKIP)"
+done
+echo "patches: $(ls "$O"/C* | wc -l), with fires: $(grep -l "^BAD" "$O"/C* | wc -l)"
